@@ -2,6 +2,7 @@
   C04 — Striping is a lossless, backend-independent rearrangement of the sequence.
 -/
 import LMV.Lemmas.Stripe
+import LMV.Lemmas.Sums
 import LMV.Lemmas.StripeAvx2
 import LMV.Model.StripeAvx2
 import Mathlib.Tactic.SplitIfs
@@ -303,6 +304,50 @@ theorem index_eq (hC : 0 < C) (N : Nat) (st : Striped C) (s : List Nat) (h : Inv
   have : i / seqRowsOf C s.length * seqRowsOf C s.length + i % seqRowsOf C s.length = i := by
     rw [Nat.mul_comm]; exact Nat.div_add_mod i _
   rw [this]; rfl
+
+/-! ### (5b) reading back: counting symbols -/
+
+theorem countSymbol_eq_sum (st : Striped C) (sym : Nat) :
+    st.countSymbol sym =
+      sumTo (st.data.rows - st.wrap) (fun i => sumTo C (fun j =>
+        if j * (st.data.rows - st.wrap) + i < st.length ∧ st.data.get i j = sym then 1 else 0)) := by
+  unfold Striped.countSymbol
+  have inner : ∀ (i cnt : Nat),
+      (List.range C).foldl (fun cnt j =>
+        if j * (st.data.rows - st.wrap) + i < st.length ∧ st.data.get i j = sym then cnt + 1 else cnt) cnt
+      = cnt + sumTo C (fun j =>
+        if j * (st.data.rows - st.wrap) + i < st.length ∧ st.data.get i j = sym then 1 else 0) := by
+    intro i cnt
+    rw [← foldl_add_init]
+    congr 1
+    funext cnt j
+    split <;> rfl
+  simp only [inner]
+  rw [foldl_add_init]; simp
+
+/-- **C04, counting**: counting a symbol in the striped sequence (before or after any number of
+    `configure_wrap` calls) gives its number of occurrences in the linear sequence -/
+theorem countSymbol_eq (hC : 0 < C) (N : Nat) (st : Striped C) (s : List Nat) (h : Inv N st s)
+    (sym : Nat) : st.countSymbol sym = s.count sym := by
+  rw [countSymbol_eq_sum]
+  have hrows : st.data.rows - st.wrap = seqRowsOf C s.length := by rw [h.rows]; omega
+  rw [hrows, h.len]
+  have hge := seqRowsOf_mul_ge hC s.length
+  -- under the invariant the cell tested is the padded read of the position
+  have h1 : sumTo (seqRowsOf C s.length) (fun i => sumTo C (fun j =>
+        if j * seqRowsOf C s.length + i < s.length ∧ st.data.get i j = sym then 1 else 0)) =
+      sumTo (seqRowsOf C s.length) (fun i => sumTo C (fun j =>
+        (fun p => if p < s.length ∧ s.getD p N = sym then 1 else 0) (j * seqRowsOf C s.length + i))) := by
+    apply sumTo_congr; intro i hi
+    apply sumTo_congr; intro j hj
+    rw [h.cell i j (by omega) hj]; rfl
+  rw [h1, sumTo_grid (seqRowsOf C s.length) C
+    (fun p => if p < s.length ∧ s.getD p N = sym then 1 else 0), sumTo_truncate _ s.length hge]
+  · rw [← sumTo_count s N sym]
+    apply sumTo_congr; intro p hp
+    simp [hp]
+  · intro p hp
+    rw [if_neg]; omega
 
 /-! ### (2) the AVX2 kernel and every dispatcher arm equal generic striping -/
 
